@@ -47,7 +47,12 @@ type RuntimeOpts struct {
 	// the order in which the path names them (`message R { string post_id = 1; string user_id = 2; }` for
 	// `/users/{user_id}/posts/{post_id}`).
 	ReorderPathFields bool
-	// OddBasePaths: the service base path is sometimes spelled non-canonically but legally: with a trailing slash
+	// SharedRequest (GenMultiServiceFile): one more service whose routes take the SAME request message with DIFFERENT
+	// sets of path variables (the variable missing from a path travels in the body): whatever is derived per route
+	// must not be remembered per message.
+	SharedRequest bool
+	// OddBasePaths: (also: a literal segment spelled like a path variable sometimes precedes its placeholder.)
+	// The service base path is sometimes spelled non-canonically but legally: with a trailing slash
 	// (`/api/v1/`) or as the bare root (`/`) — every generator normalises the join of base path and method path.
 	OddBasePaths bool
 	// OptionalQuery: some singular query-bound fields carry the proto3 `optional` keyword (a pointer in the generated
@@ -143,6 +148,11 @@ func GenRuntimeFile(r *R, idx int, o RuntimeOpts) *ir.Request {
 			}
 			in.Fields = append(in.Fields, pf)
 			no++
+			if o.OddBasePaths && r.P(1, 3) {
+				// a LITERAL segment spelled like the variable, right before its placeholder (`/email/{email}`): the
+				// variable's position is where its braces are, not where its name first occurs
+				path += "/" + fn
+			}
 			path += "/{" + fn + "}"
 			if r.Bool() {
 				path += fmt.Sprintf("/s%d", v)
